@@ -286,6 +286,141 @@ fn case(cx: &mut CaseCtx, input: Input, layouts: usize, cfg: &GenCfg) -> CaseRes
     Ok(())
 }
 
+/// (4) Snippets: every span the visitor shows, spans joined from two of them (as validators do with
+/// `a.span() + b.span()`) and zero-width positions are attached to synthetic diagnostics and notes,
+/// written by the real emitter in human format, and the output is re-parsed against the reference
+/// in `c14::check_snippet`: right line numbers, the source lines with tabs expanded, and an
+/// underline that covers exactly the display cells of the spanned characters.
+fn snippets_case(cx: &mut CaseCtx, input: Input, cfg: &GenCfg) -> CaseResult {
+    use slicec::diagnostics::{Diagnostic, Error};
+    use slicec::slice_file::{Location, Span};
+    let (lay_bytes, prog_bytes) = split_input(input.bytes());
+    let mut u = Unstructured::new(prog_bytes);
+    let (p, _labels) = gen_program(&mut u, cfg);
+    cx.set_key(&(&p, lay_bytes));
+    let (texts, rendered) = render_layout(&p, lay_bytes, 1);
+    for r in &rendered {
+        for lab in &r.labels {
+            cx.label(*lab);
+        }
+    }
+    cx.sample_with(|| json!({"files": texts}));
+    if std::env::var_os("VCHECK_NO_COMPILE").is_some() {
+        return Ok(());
+    }
+    let state = compile_strings(&texts, None);
+    let mut col = SpanCollector::default();
+    for f in &state.files {
+        f.visit_with(&mut col);
+    }
+    // spans of the real diagnostics too (programs of this family may be ill-formed)
+    let mut spans: Vec<Span> = Vec::new();
+    for (_, s) in &col.spans {
+        spans.push(Span::new(Location { row: s.start.0, col: s.start.1 }, Location { row: s.end.0, col: s.end.1 }, &s.file));
+    }
+    let text_of = |name: &str| -> Option<String> {
+        state.files.iter().position(|f| f.relative_path == name).and_then(|i| texts.get(i).cloned())
+    };
+    // Only spans that are well-formed for their file are in the emitter's domain; the others are
+    // the first part of this property's business (family `programs`).
+    spans.retain(|s| {
+        let Some(t) = text_of(&s.file) else { return false };
+        let so: SpanObs = s.into();
+        well_formed(&so, &line_lengths(&t), "snippet").is_ok()
+    });
+    if spans.is_empty() {
+        cx.label("no-spans");
+        return Ok(());
+    }
+    // joined spans (same file) and zero-width positions
+    let n = spans.len();
+    let mut extra: Vec<Span> = Vec::new();
+    for j in 0..n {
+        for k in [1usize, 3, 7] {
+            let (a, b) = (&spans[j], &spans[(j + k) % n]);
+            if a.file == b.file {
+                extra.push(a + b);
+            }
+        }
+        extra.push(Span::new(spans[j].start, spans[j].start, &spans[j].file));
+        extra.push(Span::new(spans[j].end, spans[j].end, &spans[j].file));
+    }
+    spans.extend(extra);
+    spans.dedup();
+    // classification
+    let mut interesting = false;
+    let mut seen: std::collections::BTreeSet<&'static str> = Default::default();
+    for s in &spans {
+        let t = text_of(&s.file).unwrap_or_default();
+        let lines: Vec<&str> = t.lines().collect();
+        if s.end.row > s.start.row {
+            seen.insert("multi-line-span");
+            let inner = (s.start.row..s.end.row).filter_map(|r| lines.get(r - 1));
+            for l in inner {
+                if !l.is_ascii() {
+                    seen.insert("multi-line-span/non-ascii-on-inner-line");
+                    interesting = true;
+                }
+                if l.contains('\t') {
+                    seen.insert("multi-line-span/tab-on-inner-line");
+                    interesting = true;
+                }
+            }
+        } else if let Some(l) = lines.get(s.start.row - 1) {
+            let before: String = l.chars().take(s.start.col - 1).collect();
+            if !before.is_ascii() {
+                seen.insert("single-line-span/non-ascii-before");
+                interesting = true;
+            }
+            if before.contains('\t') {
+                seen.insert("single-line-span/tab-before");
+                interesting = true;
+            }
+            if s.start == s.end {
+                seen.insert("zero-width-span");
+            }
+        }
+    }
+    for l in seen {
+        cx.label(l);
+    }
+    cx.nontrivial = interesting;
+    let diags: Vec<Diagnostic> = spans
+        .iter()
+        .enumerate()
+        .map(|(i, s)| {
+            let d = Diagnostic::new(Error::Syntax { message: format!("probe {i}") }).set_span(s);
+            // every third one also carries a note with the span of a neighbour
+            if i % 3 == 0 {
+                d.add_note(format!("note {i}"), Some(&spans[(i + 1) % spans.len()]))
+            } else {
+                d
+            }
+        })
+        .collect();
+    let expected = crate::c14::expectations(&diags);
+    let options = slicec::slice_options::SliceOptions { disable_color: true, ..Default::default() };
+    console::set_colors_enabled(false);
+    console::set_colors_enabled_stderr(false);
+    let mut out: Vec<u8> = Vec::new();
+    {
+        let mut emitter = slicec::diagnostic_emitter::DiagnosticEmitter::new(&mut out, &options, &state.files);
+        if let Err(e) = emitter.emit_diagnostics(diags) {
+            fail!("snippet/emitter-io-error", "{e}");
+        }
+    }
+    let stream = match String::from_utf8(out) {
+        Ok(s) => s,
+        Err(_) => fail!("snippet/invalid-utf8", "the emitter wrote invalid UTF-8"),
+    };
+    match crate::c14::check_human(&stream, &expected, &text_of) {
+        Ok(_) => {}
+        Err(f) => return Err(Fail::new(format!("snippet/{}", f.class), f.detail)),
+    }
+    cx.label("snippets-checked");
+    Ok(())
+}
+
 /// Collects (kind, span) of everything a visitor is shown.
 #[derive(Default)]
 pub struct SpanCollector {
@@ -391,13 +526,15 @@ impl Check for C09 {
         ]
     }
     fn essential(&self, _tier: Tier) -> Vec<&'static str> {
-        vec!["spans-checked", "tab", "crlf", "non-ascii-before", "prelude-mixed", "op-no-return", "op-single-return", "op-tuple-return", "unchecked", "compact", "idempotent", "tagged", "enumerator-explicit", "type-attribute"]
+        vec!["spans-checked", "tab", "crlf", "non-ascii-before", "prelude-mixed", "op-no-return", "op-single-return", "op-tuple-return", "unchecked", "compact", "idempotent", "tagged", "enumerator-explicit", "type-attribute", "snippets-checked", "multi-line-span/non-ascii-on-inner-line", "multi-line-span/tab-on-inner-line", "single-line-span/non-ascii-before", "single-line-span/tab-before", "zero-width-span"]
     }
     fn families(&self, tier: Tier) -> Vec<Family<'_>> {
         let layouts = tier.pick(2, 4);
         let cfg = GenCfg::default();
+        let cfg2 = GenCfg::default();
         vec![
             Family::bytes("programs", 600, tier.pick(4_000, 60_000), move |cx, i| case(cx, i, layouts, &cfg)),
+            Family::bytes("snippets", 600, tier.pick(1_500, 25_000), move |cx, i| snippets_case(cx, i, &cfg2)),
             // regression inputs: the bytes are a source text; model-free span check
             Family::replay_only("direct", |cx, i| {
                 let text = String::from_utf8_lossy(i.bytes()).into_owned();
